@@ -35,7 +35,8 @@ class Ctx:
         self.counter = 0
 
     def name_of(self, sort, obj):
-        k = id(obj)
+        # immutable values (names, byte strings) are identified by value, objects by identity
+        k = ('val', sort.name, obj) if isinstance(obj, (str, bytes, int, frozenset)) else id(obj)
         if k not in self.names:
             self.counter += 1
             nm = f'{sort.name}!new{self.counter}'
@@ -86,7 +87,7 @@ def build(sort, data, ctx: Ctx):
                         attrs[a] = build(s, data[a], ctx)
             obj = fac(name, attrs, ctx)
             ctx.refs[name] = obj
-            ctx.names[id(obj)] = name
+            ctx.names[('val', sort.name, obj) if isinstance(obj, (str, bytes, int, frozenset)) else id(obj)] = name
             ctx.keep.append(obj)
         return ctx.refs[name]
     if isinstance(sort, RecS):
